@@ -136,6 +136,12 @@ def check(am, data, model=None, hybrid=False):
     else:
         if len(data) < total:
             out.append((('size', 'image-length-vs-declared', 'shorter'), 'image %d bytes, declared %d' % (len(data), total)))
+    # the system area belongs to nobody but the isohybrid structures
+    if model is not None and not getattr(model, 'hybrid', None) and not hybrid:
+        sysarea = data[:16 * SECTOR]
+        if any(sysarea):
+            first = next(i for i, b in enumerate(sysarea) if b)
+            out.append((('system-area', 'not-zero-without-isohybrid'), 'first non-zero byte at %d' % first))
     # flatten: dedupe identical extents; different kinds on one extent is an overlap
     items = sorted(((s, l, k) for (k, s, l) in am.objects), key=lambda x: (x[0], x[1]))
     prev_end = -1
